@@ -37,7 +37,7 @@ impl fmt::Display for Expr {
 }
 
 /// Deepest chain of nested sub-expressions and symbol definitions that is evaluated
-const MAX_EVALUATION_DEPTH: usize = 1000;
+const MAX_EVALUATION_DEPTH: usize = 256;
 /// Most sub-expressions (counting those of the symbols it names) one evaluation may visit
 const MAX_EVALUATION_STEPS: usize = 1_000_000;
 
